@@ -59,6 +59,9 @@ pub enum Step {
     OpenReader { r: u8, k: u8 },
     DrainReader { r: u8 },
     GetRange { k: u8, s: u64, e: u64 },
+    /// put `n` extra keys (outside the pool, derived from 8-byte little-endian counters) with one small content;
+    /// only used by the bulk-range part of C03 (key types whose from_key_bytes accepts 8 bytes)
+    Bulk { n: u16 },
 }
 
 #[derive(Clone, Debug, Serialize, Deserialize)]
@@ -560,6 +563,7 @@ impl<K: HKey> Sess<K> {
                     }
                 }
             }
+            Step::Bulk { .. } => {}
             Step::GetRange { k, s, e } => {
                 let key = self.key(*k);
                 let res = self.cas().get_range(&key, *s, *e);
